@@ -360,7 +360,7 @@ func (t *termer) term(v ssa.Value, d int) string {
 		}
 		for i, p := range x.Parent().Params {
 			if p == x {
-				return fmt.Sprintf("P%d", i)
+				return c.pname(x.Parent(), i)
 			}
 		}
 		return "P?"
@@ -1157,4 +1157,158 @@ func (c *Ctx) verdictByControlFlow(call *ssa.Call) bool {
 		}
 	}
 	return true
+}
+
+// pname: the name under which parameter i of fn appears in terms. Positions are those of the pinned signature:
+// when a pinned function's parameter list was changed (a parameter dropped, added or moved), a parameter that
+// kept its name keeps its pinned position, and any other gets a position no rule is written over.
+func (c *Ctx) pname(fn *ssa.Function, i int) string {
+	if c.pnames == nil {
+		c.pnames = map[*ssa.Function][]string{}
+	}
+	if ns, ok := c.pnames[fn]; ok {
+		if i < len(ns) {
+			return ns[i]
+		}
+		return fmt.Sprintf("P%d", i)
+	}
+	ns := make([]string, len(fn.Params))
+	for k := range ns {
+		ns[k] = fmt.Sprintf("P%d", k)
+	}
+	if pinned, ok := pinnedParamNames(c.fname(fn), fn.Signature.Recv() != nil); ok {
+		cur := make([]string, len(fn.Params))
+		for k, p := range fn.Params {
+			cur[k] = p.Name()
+		}
+		// the parameter list is unchanged when it has the pinned types in the pinned order (names may differ: a
+		// renamed parameter keeps its position)
+		ptypes := pinnedParamTypes(c.fname(fn), fn.Signature.Recv() != nil)
+		same := len(ptypes) == len(fn.Params)
+		for k, p := range fn.Params {
+			if !same {
+				break
+			}
+			if k == 0 && fn.Signature.Recv() != nil {
+				continue
+			}
+			if relType(c, p.Type()) != ptypes[k] {
+				same = false
+			}
+		}
+		if !same {
+			for k := range cur {
+				if k == 0 && fn.Signature.Recv() != nil {
+					continue // the receiver
+				}
+				ns[k] = fmt.Sprintf("P%d", 50+k)
+				for j, pn := range pinned {
+					if pn != "" && pn == cur[k] && !(j == 0 && fn.Signature.Recv() != nil) {
+						ns[k] = fmt.Sprintf("P%d", j)
+					}
+				}
+			}
+		}
+	}
+	c.pnames[fn] = ns
+	return ns[i]
+}
+
+// pinnedParamNames: the parameter names of the pinned signature of the named function (index 0 is the receiver
+// for methods, with an empty name).
+func pinnedParamNames(name string, method bool) ([]string, bool) {
+	sig, ok := knownSigs[name]
+	if !ok {
+		return nil, false
+	}
+	i := strings.Index(sig, "func(")
+	if i < 0 {
+		return nil, false
+	}
+	rest := sig[i+len("func("):]
+	depth, end := 0, -1
+	for k, ch := range rest {
+		switch ch {
+		case '(', '[', '{':
+			depth++
+		case ')', ']', '}':
+			if depth == 0 {
+				end = k
+			}
+			depth--
+		}
+		if end >= 0 {
+			break
+		}
+	}
+	if end < 0 {
+		return nil, false
+	}
+	var names []string
+	if method {
+		names = append(names, "")
+	}
+	list := rest[:end]
+	if strings.TrimSpace(list) == "" {
+		return names, true
+	}
+	depth = 0
+	start := 0
+	var items []string
+	for k, ch := range list {
+		switch ch {
+		case '(', '[', '{':
+			depth++
+		case ')', ']', '}':
+			depth--
+		case ',':
+			if depth == 0 {
+				items = append(items, strings.TrimSpace(list[start:k]))
+				start = k + 1
+			}
+		}
+	}
+	items = append(items, strings.TrimSpace(list[start:]))
+	for _, it := range items {
+		n := ""
+		pinnedTypeOf[name] = append(pinnedTypeOf[name], it)
+		if sp := strings.IndexByte(it, ' '); sp > 0 {
+			cand := it[:sp]
+			isIdent := cand != "func" && cand != "map" && cand != "chan" && cand != "struct" && cand != "interface"
+			for _, ch := range cand {
+				if !(ch == '_' || ch >= 'a' && ch <= 'z' || ch >= 'A' && ch <= 'Z' || ch >= '0' && ch <= '9') {
+					isIdent = false
+				}
+			}
+			if isIdent {
+				n = cand
+				tl := pinnedTypeOf[name]
+				tl[len(tl)-1] = strings.TrimSpace(it[sp+1:])
+			}
+		}
+		names = append(names, n)
+	}
+	return names, true
+}
+
+// pinnedTypeOf: parameter types (as written in knownSigs) per function, filled by pinnedParamNames.
+var pinnedTypeOf = map[string][]string{}
+
+// pinnedParamTypes: the pinned parameter types, index 0 being the receiver slot for methods.
+func pinnedParamTypes(name string, method bool) []string {
+	delete(pinnedTypeOf, name)
+	if _, ok := pinnedParamNames(name, method); !ok {
+		return nil
+	}
+	var out []string
+	if method {
+		out = append(out, "")
+	}
+	for _, t := range pinnedTypeOf[name] {
+		if strings.HasPrefix(t, "...") {
+			t = "[]" + t[3:]
+		}
+		out = append(out, t)
+	}
+	return out
 }
